@@ -16,7 +16,7 @@ RULE = ("cases = (configuration, matrix) pairs enumerated by TLC: all join/meet 
         "lattice points on/off quadrics and polars, four collinear points with chosen parameters, each with 8 generating "
         "matrices (mostly non-isometries); non-trivial = dependent/skew configuration, incident pair, point on quadric, "
         "tangent hyperplane, infinite or zero cross ratio")
-INVS = ["Commutes", "IncidencePreserved", "QuadricPreserved", "CRInvariant", "VerticesInOrder"]
+INVS = ["Commutes", "IncidencePreserved", "QuadricPreserved", "CRInvariant", "PencilCRInvariant", "VerticesInOrder"]
 KINDS = {"j2pp": ("join", ("point", "point")), "m2ll": ("meet", ("line", "line")), "j3pp": ("join", ("point", "point")),
          "j3ppp": ("join", ("point", "point", "point")), "j3pl": ("join", ("point", "line3")),
          "j3ll": ("join", ("line3", "line3")), "m3ee": ("meet", ("plane", "plane")),
@@ -143,6 +143,25 @@ def _replay(recs, reused):
                     if not ok:
                         out.append(dict(site=f"crossratio/{r['d']}D/{name}", stratum=stratum, case=case,
                                         expected=("inf" if dn == 0 else n / dn), observed=str(val)))
+                # pencils over the four points (lines through a vertex, planes through an axis): the same cross ratio, before
+                # and after, in the four argument orders that leave a cross ratio unchanged
+                def cr_fits(val):
+                    return (not np.isfinite(val.real) or abs(val) > 1e12) if dn == 0 else (np.isfinite(val.real) and abs(val - n / dn) <= TOL * max(1, abs(n / dn)))
+                pencils = [("lines", v, [g.join(build("point", v), p) for p in pts]) for v in r["vx"]]
+                pencils += [("planes", vw, [g.join(build("point", vw[0]), build("point", vw[1]), p) for p in pts]) for vw in r["axes"]]
+                for pk, vert, objs in pencils:
+                    imgs = [t * o for o in objs]
+                    for oname, od in (("abcd", (0, 1, 2, 3)), ("badc", (1, 0, 3, 2)), ("cdab", (2, 3, 0, 1)), ("dcba", (3, 2, 1, 0))):
+                        for name, xs in (("before", objs), ("after", imgs)):
+                            try:
+                                with np.errstate(all="ignore"):
+                                    val = complex(g.crossratio(*[xs[i] for i in od]))
+                                bad = None if cr_fits(val) else str(val)
+                            except Exception as e:  # noqa: BLE001
+                                bad = f"raised {type(e).__name__}: {e}"
+                            if bad is not None:
+                                out.append(dict(site=f"crossratio({pk})/{r['d']}D/{name}/order-{oname}", stratum=stratum, case=dict(case, vertex=vert),
+                                                expected=("inf" if dn == 0 else n / dn), observed=bad))
         except Exception as e:  # noqa: BLE001
             out.append(dict(site=f"{r['t']}", stratum=stratum, case={k: r[k] for k in r if k != "t"},
                             expected="no exception", observed=f"raised {type(e).__name__}: {e}"))
@@ -211,6 +230,15 @@ def run(ctx: Ctx):
                    invariants=INVS, constraints=["Dump"])
     r = ctx.tlc("C07_Invariance", cfg, dump=True, timeout=(300 if ctx.tier == "quick" else 3400))
     recs = list(read_dump(r["dump"]))
+    ncr = 0
+    for x in recs:
+        if x["r"]["t"] == "cr":
+            if not x["r"]["vx"] or (x["r"]["d"] == 3 and not x["r"]["axes"]):
+                raise MachineryError("a cross ratio case without pencil vertices (vacuous)")
+            if ctx.tier == "quick":      # one vertex and one axis per case, taken in turn (thorough: all of them)
+                ncr += 1
+                x["r"]["vx"] = [sorted(x["r"]["vx"])[ncr % len(x["r"]["vx"])]]
+                x["r"]["axes"] = [sorted(x["r"]["axes"])[ncr % len(x["r"]["axes"])]] if x["r"]["axes"] else []
     strata = {}
     for x in recs:
         strata[x["s"]] = strata.get(x["s"], 0) + 1
